@@ -1,7 +1,7 @@
 """C13 — definitions and user data round-trip; identity rules are enforced."""
 from ..export import AnalysisBroken
 from ..ir import strip_casts, const_of, walk, show, kids
-from ..graph import find_path, ret_class, ev_dominates, control_deps_transitive, cond_facts, loops
+from ..graph import find_path, ret_class, ev_dominates, control_deps_transitive, control_deps, cond_facts, loops, Witness
 from ..guard import Gates, var_of, zero_edges_of_call
 from .. import ser, df
 from .common import exceptions, consumed
@@ -24,6 +24,7 @@ def run(ctx, sess):
     ctx.rule('C13.4', 'user-data meta: writer packs (storage_type << 12) | (meta & 0x0fff); reader and copy unpack with the same shift and masks')
     ctx.rule('C13.5', 'enumeration: sources/signals are listed by one loop over 0..COUNT-1 that tests def.id == i')
     ctx.rule('C13.6', 'string blocks: every copy into a string block is dominated by a compare of its length with the block capacity')
+    ctx.rule('C13.8', 'string-block switch: after the reader moves to a fresh string block, no compare mixes a pointer into the old block with one into the new block, nothing is stored through an old-block pointer, the carried-over part ends at the old block\'s cursor, and a string that fills a whole block is rejected')
     ctx.rule('C13.7', 'absent strings: a char* field of a user definition is never passed to strlen/memcpy without a NULL test')
     r1(ctx, P)
     r2(ctx, P)
@@ -32,6 +33,7 @@ def run(ctx, sess):
     r5(ctx, P)
     r6(ctx, P, exc)
     r7(ctx, P, exc)
+    r8(ctx, P)
 
 
 def _calls(fn, names, evs=None):
@@ -422,6 +424,16 @@ def r6(ctx, P, exc):
                             if flip:
                                 o = {'<': '>', '>': '<', '<=': '>=', '>=': '<='}[o]
                             san.add((b.id, 'T' if o in ('<', '<=') else 'F'))
+            # a length that is the distance between two pointers into one string block, copied into a
+            # block allocated just before, is bounded by that block's size (C13.8 rejects the whole-block case)
+            lsrc = df.resolve_local(fn, mc.args[2], mc.block, mc.idx)
+            bl = _block_locals(fn)
+            if lsrc is not None and lsrc.get('op') == 'bin' and lsrc['o'] == '-' and \
+                    all(strip_casts(k).get('op') == 'ref' and strip_casts(k).get('name') in bl for k in lsrc['k']) and \
+                    any(ev_dominates(c, mc) for c in fn.calls('strings_alloc')):
+                ctx.ob('C13.6', True, fn.name, 'copy of %s bytes into a string block' % (lv or show(mc.args[2])), mc.where(),
+                       'the length is the distance between two pointers into the previous block and the destination block is new (whole-block strings: C13.8)')
+                continue
             w = find_path(fn, 'entry', lambda e2, facts: 'target' if e2 is mc else None,
                           edge_ok=lambda b, s, label: (b.id, label) not in san, refine=False)
             ctx.ob('C13.6', w is None, fn.name, 'copy of %s bytes into a string block' % (lv or show(mc.args[2])), mc.where(),
@@ -434,6 +446,211 @@ def r6(ctx, P, exc):
         ok, how = consumed(fn, ev)
         ctx.ob('C13.6', ok, fn.name, 'result of jls_buf_string_save()', ev.where(),
                how if ok else 'a string that does not fit is reported only through this result; ignoring it keeps the caller\'s pointer in the stored definition')
+
+
+def _block_locals(fn):
+    """locals whose value is (derived from) a pointer into the current string block"""
+    bl = set()
+    changed = True
+    while changed:
+        changed = False
+        for ev in fn.stores():
+            lhs, rhs, o = ev.store_parts()
+            l0 = strip_casts(lhs)
+            if l0.get('op') != 'ref' or l0.get('rk') != 'local' or l0['name'] in bl or rhs is None:
+                continue
+            if not l0.get('t', '').startswith('p:'):
+                continue
+            for n in walk(rhs):
+                if (n.get('op') == 'member' and n.get('field') == 'strings_tail') or \
+                        (n.get('op') == 'ref' and n.get('rk') == 'local' and n.get('name') in bl):
+                    bl.add(l0['name'])
+                    changed = True
+                    break
+    return bl
+
+
+def _gen(e, bl, stale):
+    """generations of string-block pointers mentioned in e: {'old', 'new'}"""
+    g = set()
+    for n in walk(e):
+        if n.get('op') == 'ref' and n.get('rk') == 'local' and n.get('name') in bl:
+            g.add('old' if n['name'] in stale else 'new')
+        elif n.get('op') == 'member' and n.get('field') == 'strings_tail':
+            g.add('new')
+    return g
+
+
+def r8(ctx, P):
+    """generation discipline around a switch of the current string block"""
+    switchers = set()
+    for fn in P.fns_in('src/buffer.c'):
+        for ev in fn.stores():
+            p = fn.path(ev.store_parts()[0])
+            if p is not None and p.last_field() == 'strings_tail' and ev.k == 'store':
+                rhs = ev.store_parts()[1]
+                if rhs is not None and const_of(rhs) != 0:
+                    switchers.add(fn.name)
+    ctx.note('C13.8: string-block switchers derived: %s' % sorted(switchers))
+    n = 0
+    nloop = 0
+    for fn in P.fns_in('src/buffer.c'):
+        if fn.name in switchers:
+            continue
+        sw = [c for c in fn.calls() if c.callee in switchers]
+        if not sw:
+            continue
+        bl = _block_locals(fn)
+        if not bl:
+            continue
+        ctx.saw(fn, len(sw))
+        lp = loops(fn)
+        for call in sw:
+            n += 1
+            # ---- walk every path from the switch, tracking which block locals still point into the old block
+            start = (call.block.id, call.idx + 1, frozenset(bl))
+            seen = {start}
+            work = [(start, [(call.block.id, call.ln, 'switch')])]
+            viol = {}
+            stale_loads = []       # (event, local) loads through an old-block pointer (the carry-over)
+            stale_copies = []      # memcpy-style carry-over
+            while work:
+                (bid, idx, stale), trail = work.pop()
+                b = fn.blocks[bid]
+                stop = False
+                for ev in b.events[idx:]:
+                    if ev.k == 'call' and ev.callee in switchers:
+                        stop = True      # a new switch starts its own walk
+                        break
+                    if ev.k == 'call' and ev.callee in ('memcpy', 'memmove', '__builtin_memcpy', '__builtin___memcpy_chk', '__builtin_memmove', '__builtin___memmove_chk') and len(ev.args) >= 3:
+                        if 'old' in _gen(ev.args[0], bl, stale):
+                            viol.setdefault(('store', ev.ln), (ev, 'a copy into the block that was current before the switch', trail + [(bid, ev.ln, 'copy')]))
+                        if _gen(ev.args[1], bl, stale) == {'old'}:
+                            stale_copies.append(ev)
+                    if ev.k in ('store', 'decl'):
+                        lhs, rhs, o = ev.store_parts()
+                        l0 = strip_casts(lhs)
+                        if l0.get('op') == 'ref' and l0.get('rk') == 'local' and l0.get('name') in bl:
+                            if rhs is not None and o == '=':
+                                g = _gen(rhs, bl, stale)
+                                if g == {'new'}:
+                                    stale = stale - {l0['name']}
+                                elif 'old' in g:
+                                    stale = stale | {l0['name']}
+                            continue
+                        # store through a pointer: which generation is the destination?
+                        if l0.get('op') in ('un', 'member', 'sub'):
+                            gd = _gen(lhs, bl, stale)
+                            if 'old' in gd and ev.k == 'store' and not (rhs is None and l0.get('op') == 'member' and False):
+                                viol.setdefault(('store', ev.ln), (ev, 'a store through %s, which still points into the block that was current before the switch' %
+                                                                  '/'.join(sorted(x for x in stale if any(m.get('name') == x for m in walk(lhs)))), trail + [(bid, ev.ln, 'store')]))
+                            if rhs is not None:
+                                for m in walk(rhs):
+                                    if m.get('op') == 'ref' and m.get('name') in stale and m.get('rk') == 'local':
+                                        stale_loads.append((ev, m['name']))
+                if stop:
+                    continue
+                if b.cond is not None:
+                    for c in walk(b.cond):
+                        if c.get('op') == 'bin' and c['o'] in ('<', '<=', '>', '>=', '==', '!='):
+                            gl = _gen(c['k'][0], bl, stale)
+                            gr = _gen(c['k'][1], bl, stale)
+                            if (gl == {'old'} and gr == {'new'}) or (gl == {'new'} and gr == {'old'}):
+                                viol.setdefault(('cmp', b.id), (b, 'the compare %s takes one side from the new block and the other (%s) from the block that was current before the switch' %
+                                                                (show(c), ', '.join(sorted(x for x in stale if any(m.get('name') == x for m in walk(c))))),
+                                                                trail + [(bid, c.get('ln', b.line), 'compare')]))
+                for s2, label in b.succs:
+                    st = (s2.id, 0, stale)
+                    if st not in seen:
+                        seen.add(st)
+                        work.append((st, trail + [(s2.id, s2.line, '')] if len(trail) < 12 else trail))
+            ok = not viol
+            v = next(iter(viol.values())) if viol else None
+            from ..graph import Witness
+            ctx.ob('C13.8', ok, fn.name, 'pointers after %s()' % call.callee, call.where(),
+                   'every compare and store after the switch uses one block generation' if ok else v[1],
+                   Witness(v[2]).render() if v else None)
+            # ---- inside a loop: carry-over extent and whole-block strings
+            in_loop = [h for h, body in lp.items() if call.block.id in body]
+            if not in_loop:
+                continue
+            nloop += 1
+            # the carry-over loop: a loop with a load through an old-block pointer; its bound
+            cl = None
+            for ev, name in stale_loads:
+                for h, body in lp.items():
+                    if ev.block.id in body and call.block.id not in body:
+                        cl = (h, body, name)
+            if cl is None and stale_copies:
+                mc = stale_copies[0]
+                from_cur = df.derives(fn, mc.args[2], lambda m: m.get('op') == 'member' and m.get('field') == 'cur' and m.get('rec') == 'jls_buf_strings_s',
+                                      mc.block, mc.idx, must=True)
+                ctx.ob('C13.8', from_cur, fn.name, 'carry-over after %s()' % call.callee, mc.where(),
+                       'copies %s bytes, measured from the old block\'s cursor' % show(mc.args[2]) if from_cur else
+                       'the carry-over length %s is not measured from the old block\'s cursor' % show(mc.args[2]))
+            elif cl is None:
+                ctx.ob('C13.8', False, fn.name, 'carry-over after %s()' % call.callee, call.where(),
+                       'the switch happens in the middle of a string, yet nothing copies the part already stored in the old block')
+            else:
+                h, body, name = cl
+                hb = fn.blocks[h]
+                conds = [fn.blocks[x] for x in body if fn.blocks[x].cond is not None and any(s3.id not in body for s3, _ in fn.blocks[x].succs)]
+                ok2, detail = False, 'the carry-over loop has no bound on %s' % name
+                for cb in conds:
+                    c = strip_casts(cb.cond)
+                    if c.get('op') != 'bin' or c['o'] not in ('<', '<=', '!=', '>', '>='):
+                        continue
+                    l, r = c['k']
+                    if var_of(fn, r) == name:
+                        l, r = r, l
+                        o = {'<': '>', '>': '<', '<=': '>=', '>=': '<=', '!=': '!='}[c['o']]
+                    else:
+                        o = c['o']
+                    if var_of(fn, l) != name:
+                        continue
+                    from_cur = df.derives(fn, r, lambda m: m.get('op') == 'member' and m.get('field') == 'cur' and m.get('rec') == 'jls_buf_strings_s',
+                                          cb, len(cb.events), must=True)
+                    # the bound is taken before the switch (it describes the old block)
+                    r0 = strip_casts(r)
+                    taken_before = True
+                    if r0.get('op') == 'ref' and r0.get('rk') == 'local':
+                        defs, _ = df.reaching_defs(fn, r0['name'], cb, len(cb.events))
+                        taken_before = all(not ev_dominates(call, d) for d in defs)
+                    else:
+                        taken_before = False
+                    if not from_cur:
+                        detail = 'the carry-over copies %s up to %s, which is not the old block\'s cursor: bytes that were never written are copied into the string' % (name, show(r))
+                    elif not taken_before:
+                        detail = 'the carry-over bound %s is read after the switch (it describes the new block)' % show(r)
+                    elif o not in ('<', '!='):
+                        detail = 'the carry-over copies one byte past the old block\'s cursor (%s)' % show(c)
+                    else:
+                        ok2, detail = True, 'copies [%s, %s) — the bytes written to the old block' % (name, show(r))
+                ctx.ob('C13.8', ok2, fn.name, 'carry-over after %s()' % call.callee, hb.where() if hasattr(hb, 'where') else call.where(), detail)
+            # a string that fills a whole block is rejected before the switch
+            cdt = control_deps_transitive(fn, call.block.id)
+            sw_conds = {a for (a, lab) in cdt if any(a in body for body in [lp[h2] for h2 in in_loop])}
+            found = None
+            for rv in fn.returns():
+                if ret_class(fn, rv, frozenset()) != 'nonzero':
+                    continue
+                rcd = control_deps(fn).get(rv.block.id, set())
+                for (a, lab) in rcd:
+                    cb = fn.blocks[a]
+                    if cb.cond is None or a not in {x for h2 in in_loop for x in lp[h2]}:
+                        continue
+                    names = {m.get('name') for m in walk(cb.cond) if m.get('op') == 'ref' and m.get('rk') == 'local'}
+                    if names & bl and any(m.get('op') == 'member' and m.get('field') == 'buffer' for m in walk(cb.cond)) or \
+                            (names & bl and any(const_of(m) is not None and const_of(m) >= 1024 for m in walk(cb.cond))):
+                        # and it sits on the switch branch, before the switch
+                        rt = control_deps_transitive(fn, rv.block.id)
+                        if sw_conds & {x for (x, _) in rt} and not ev_dominates(call, rv):
+                            found = rv
+            ctx.ob('C13.8', found is not None, fn.name, 'whole-block string before %s()' % call.callee, call.where(),
+                   'rejected at %s' % found.where() if found else
+                   'a string longer than one string block is carried over in full again and again: no exit on the switch branch compares the string start with the block start (or its length with the capacity)')
+    ctx.floor('string-block switch sites', n, 2)
+    ctx.floor('string-block switches inside a loop', nloop, 1)
 
 
 def r7(ctx, P, exc):
